@@ -131,6 +131,13 @@ func verifDumpFile(name string) (d verifDump, openErr error) {
 			if rs, err := ds.ReadCompound(); err == nil {
 				d.perRecs[p] = len(rs)
 			}
+			if it, err := ds.ChunkIterator(); err == nil {
+				// chunked datasets: every stored chunk once (at most 8 here)
+				for k := 0; k < 8 && it.Next(); k++ {
+					_, _ = it.Chunk()
+					_ = it.ChunkCoords()
+				}
+			}
 			d.slices = append(d.slices,
 				verifSliceOf(ds, []uint64{0}, []uint64{1}),
 				verifSliceOf(ds, []uint64{1}, []uint64{2}),
